@@ -166,8 +166,10 @@ func c09Exec(cs fw.Case) *fw.Fail {
 		if f := try("whole", bytes.NewReader(dump)); f != nil {
 			return f
 		}
-		if f := try("1 byte per read", iotest.OneByteReader(bytes.NewReader(dump))); f != nil {
-			return f
+		if len(dump) <= 1000000 {
+			if f := try("1 byte per read", iotest.OneByteReader(bytes.NewReader(dump))); f != nil {
+				return f
+			}
 		}
 		if f := try("data with EOF", iotest.DataErrReader(bytes.NewReader(dump))); f != nil {
 			return f
@@ -178,6 +180,9 @@ func c09Exec(cs fw.Case) *fw.Fail {
 		for _, k := range []int{2, 3, 4, 5, 6, 7, 8, 9, 10, 11, 12, 13, 14, 15, 16, 17, 4095, 4096, 4097} {
 			if k >= len(dump) && k > 17 {
 				continue
+			}
+			if len(dump) > 1000000 && k < 4095 {
+				continue // megabyte dumps: page-sized deliveries only
 			}
 			if f := try(fmt.Sprintf("%d bytes per read", k), &fixedReader{data: dump, k: k}); f != nil {
 				return f
@@ -289,6 +294,10 @@ func init() {
 				if c.Expired() {
 					return
 				}
+			}
+			// string constants beyond one mebibyte (a loader reading in 1 MiB pieces)
+			for _, L := range []int{1048575, 1048576, 1048577, 1600000, 2097152, 2097153} {
+				c.Do(subC09, &c09Case{Name: fmt.Sprintf("megastring-%d", L), Src: `var s = "` + strings.Repeat("m", L) + `"` + "\nprint 1\ndef b { f = \"tail\" }", PName: "input", Cuts: 0})
 			}
 			for i, pn := range []string{"%", "100%.bcl", "%s%d%v", "conf/my%20service.bcl", "a\x00b", "é€", "line1\nline2", "\xff\xfe", "== x ==", " ", "%!(NOVERB)"} {
 				c.Do(subC09, &c09Case{Name: fmt.Sprintf("pname-special-%d", i), Src: `var a=1; def b "nm" { x = a+2.5; print "s"+x } bind b->struct`, PName: pn, Cuts: 1})
